@@ -164,9 +164,12 @@ def _frequency(case):
         c["seed"] = case["seed0"] + s
         obs = fu.run_real(c)
         ph = fu.physical(case.get("config"))
+        if obs["T0_obj"] != obs["T0"]:
+            return {"raise": None, "freq_steps": [], "P": 0.0, "N": obs["N"],
+                    "T0_bad": [obs["T0_obj"], obs["T0"]]}
         if P is None:
             T = obs["XT"][0][0]
-            P = fu.spec_P(ph, obs["kb"][0], T, obs["dt"])
+            P = float(fu.spec_P(ph, obs["kb"][0], T, obs["dt"])) if T < ph["T_eq_l"] else 0.0
         tn = obs["tNuc"][0]
         steps.append(None if math.isnan(tn) else int(round(tn / obs["dt"])) - 1)
     return {"raise": None, "freq_steps": steps, "P": P, "N": obs["N"]}
@@ -191,6 +194,10 @@ def predicates(case, impl):
         fail("total", f"valid configuration raises {impl['raise']}: {impl.get('msg')}")
         return out
     if case.get("kind") == "frequency":
+        if impl.get("T0_bad"):
+            fail("initial_temperature", f"T_k_0 of the object is {impl['T0_bad'][0]!r} but the configuration implies "
+                 f"{impl['T0_bad'][1]!r}")
+            return out
         P, N = impl["P"], impl["N"]
         steps = impl["freq_steps"]
         n = len(steps)
@@ -216,6 +223,10 @@ def predicates(case, impl):
                      f"P={P:.4g}: chi2={x:.1f}, p={pval:.2g}", "frequency")
         return out
 
+    for clause, detail in fu.stateless_failures(case, impl):
+        fail(clause, detail)
+    if out:
+        return out
     ph = fu.physical(case.get("config"))
     n, N, dt = impl["n"], impl["N"], impl["dt"]
     XT = np.asarray(impl["XT"])
